@@ -97,6 +97,8 @@ sc('scan_block_scalar_breaks', props=['C03', 'C20'], params={'indent': 'int'}, r
 sc('scan_flow_scalar_breaks', props=['C03', 'C12', 'C20'], params={'double': 'bool'}, result='list',
    ensures=["self.index >= old(self.index)", "typeis(result, 'list')"], labels={0: 'only-moves-forward', 1: 'a-list-of-chunks'},
    invariants={0: _SKIP_INV + ["typeis(chunks, 'list')"], 1: _SKIP_INV + ["typeis(chunks, 'list')", "self.index >= before_loop(self.index)"]},
+   # three characters that spell a marker are not the NUL sentinel: the fourth one may be looked at (stated once, where the state is simple)
+   cuts=[("prefix = self.prefix(3)", ["(prefix == '---' or prefix == '...') ==> self.index + 3 < len(S(self))"])],
    variants={0: "len(S(self)) - self.index", 1: "len(S(self)) - self.index"}, modifies=MODF)
 sc('scan_flow_scalar_spaces', props=['C03', 'C20'], params={'double': 'bool'}, result='list',
    ensures=["self.index >= old(self.index)", "typeis(result, 'list')"], labels={0: 'only-moves-forward', 1: 'a-list-of-chunks'},
@@ -240,3 +242,20 @@ contract(SC + 'save_possible_simple_key', props=['C18', 'C03', 'C20'], axioms=[p
              "self.index == old(self.index) and self.line == old(self.line)"],
     labels={0: 'inv_psk', 1: 'candidate-points-at-the-next-token-and-the-current-position', 2: 'nothing-registered-when-keys-are-not-allowed', 3: 'position-unchanged'},
     modifies=['self.possible_simple_keys[]'], raises=[SERR])
+
+# ---- between tokens: spaces, comments and line breaks are skipped; a BOM only at the very start of the input (C07)
+sc('scan_to_next_token', props=['C03', 'C07', 'C20'],
+   ensures=["self.index >= old(self.index)"], labels={0: 'only-moves-forward'},
+   invariants={0: _SKIP_INV + ["typeis(found, 'bool')"],
+               1: _SKIP_INV + ["typeis(found, 'bool') and not found", "self.index >= before_loop(self.index)"],
+               2: _SKIP_INV + ["typeis(found, 'bool') and not found", "self.index >= before_loop(self.index)"]},
+   variants={1: "len(S(self)) - self.index", 2: "len(S(self)) - self.index"}, modifies=MODF + ['self.allow_simple_key'])
+
+# ---- block indentation: a deeper column pushes the current indent (C09: BLOCK-*-START tokens are issued exactly when this returns True)
+contract(SC + 'add_indent', props=['C03', 'C09'], params={'column': 'int'},
+    requires=["typeis(self.indents, 'list')"], result='bool',
+    ensures=["result == (old(self.indent) < column)",
+             "result ==> (self.indent == column and seq(self.indents) == old(seq(self.indents)) + [old(self.indent)])",
+             "not result ==> (self.indent == old(self.indent) and seq(self.indents) == old(seq(self.indents)))"],
+    labels={0: 'true-iff-deeper', 1: 'previous-indent-pushed', 2: 'otherwise-nothing-changes'},
+    modifies=['self.indent', 'self.indents[]'], raises=[])
